@@ -32,7 +32,7 @@ def _lts(tier, ck):
     return files
 
 
-def _run(pid, tier, tags, level_assumptions):
+def _run(pid, tier, tags, level_assumptions, conc=False):
     ck = Check(pid, tier, "model_checking")
     ck.assumptions = level_assumptions
     files = _lts(tier, ck)
@@ -46,6 +46,16 @@ def _run(pid, tier, tags, level_assumptions):
         traces += doc["extra"].get("histories", 0)
         ck.take(doc)
         os.unlink(p)
+    if conc:
+        # release accounting under concurrency: the directed interleavings (a second request queued on the fid's lock while the
+        # first is parked inside the file system) and random workloads, judged by FidLin's NoUseAfterRelease
+        tp = os.path.join(OUT, "fidconc13-%d.ndjson" % os.getpid())
+        d2 = harness(["fidconc", "-n", "100" if tier == "quick" else "2000", "-reps", "1" if tier == "quick" else "3", "-trace", tp], timeout=1500)
+        d2["violations"] = [v for v in d2.get("violations") or [] if v.get("tag") in tags]
+        d2["samples"] = []
+        ck.take(d2, prefix="conc_")
+        traces += _validate_lin(ck, tp, only=("use-after-release",))
+        os.unlink(tp)
     ck.add_cov(traces_validated_against_impl=traces,
                rule="every transition of the TLC-computed LTS of FidTable is executed at least once on "
                     "p9p.SFileSys(scriptedFS) (edge-cover tours from the initial state) plus seeded random walks; "
@@ -65,11 +75,13 @@ def c13(tier):
     return _run("C13", tier, ("release", "hang"), [
         "an entry counts as released by Dirent.Clunk, Dirent.Remove or by being the receiver of a successful Dirent.Create",
         "entries returned by incomplete walks are placeholders that must never be used or released",
-        "every history ends with Session.Stop, so stop strikes at every reachable table state"])
+        "every history ends with Session.Stop, so stop strikes at every reachable table state",
+        "concurrent part: histories of the fidconc engine (see C14) are checked by FidLin.tla for calls on released / consumed entries only"],
+        conc=True)
 
 
 # ----------------------------------------------------------------------------- C14
-def _validate_lin(ck, trace_path):
+def _validate_lin(ck, trace_path, only=None):
     """TLC (FidLin.tla): mutual exclusion + linearizability of every recorded concurrent history."""
     with open(trace_path) as f:
         lines = f.read().splitlines()
@@ -91,12 +103,17 @@ def _validate_lin(ck, trace_path):
             validated += len(pending)
             break
         import re
-        if r.violation == "MutualExclusion":
+        invs = {"MutualExclusion": ("overlapping-filesys-calls", "two FileSys calls (Dirent.Qid included) overlap on one entry"),
+                "NoUseAfterRelease": ("use-after-release", "a FileSys call is made on an entry after the session released it (clunk / remove) "
+                                                           "or after a successful create consumed it"),
+                "OpenAnswersOwnEntry": ("open-answers-other-entry", "a successful open answers with the qid of another entry than the one "
+                                                                    "the file system opened for it")}
+        if r.violation in invs:
             m = None
             for m in re.finditer(r"/\\ l = (\d+)", r.out):
                 pass
             pos = int(m.group(1)) - 1 if m else 1
-            sig, what = "overlapping-filesys-calls", "two FileSys calls overlap on one entry"
+            sig, what = invs[r.violation]
         else:
             m = re.search(r'"REJECTED-AT", (\d+)', r.out) or re.search(r'REJECTED-AT[^0-9]*(\d+)', r.out)
             if not m:
@@ -110,7 +127,8 @@ def _validate_lin(ck, trace_path):
             if pos <= n:
                 break
         evs = [json.loads(x) for x in pending[k]]
-        ck.violation("lin:" + sig, "%s (history %d, event %d of the batch)" % (what, evs[0].get("run", 0), pos),
+        if only is None or sig in only:
+            ck.violation("lin:" + sig, "%s (history %d, event %d of the batch)" % (what, evs[0].get("run", 0), pos),
                      {"engine": "fidconc", "history": evs})
         validated += k
         pending = pending[k + 1:]
@@ -131,7 +149,7 @@ def c14(tier):
             raise vlib.Inconclusive("FidConc violates %s:\n%s" % (r.violation, r.out[-3000:]))
         ck.add_cov(states=r.distinct, transitions=r.generated)
         ck.cov.setdefault("tlc_runs", []).append({"cfg": cfg, **r.summary()})
-    for acfg in ("FidConc_asis.cfg", "FidConc_asis_del.cfg"):
+    for acfg in ("FidConc_asis.cfg", "FidConc_asis_del.cfg", "FidConc_nonil.cfg"):
         ra = tlc("fid", "FidConc", acfg, workers=8, timeout=600)
         if ra.violation is None:
             raise vlib.Inconclusive("%s: no violation found (vacuity guard failed)" % acfg)
